@@ -23,6 +23,7 @@ import (
 	"github.com/ansible/receptor/pkg/netceptor"
 	"github.com/ansible/receptor/pkg/randstr"
 	"github.com/ansible/receptor/pkg/utils"
+	"github.com/ansible/receptor/pkg/verifhook"
 	"github.com/golang-jwt/jwt/v4"
 )
 
@@ -169,6 +170,8 @@ func (w *Workceptor) generateUnitID(lock bool) (string, error) {
 				continue
 			}
 
+			verifhook.Step("alloc.mkdir", unitdir)
+
 			return ident, os.MkdirAll(unitdir, 0o700)
 		}
 	}
@@ -264,6 +267,7 @@ func (w *Workceptor) AllocateUnit(workTypeName string, params map[string]string)
 	if err != nil {
 		return nil, err
 	}
+	verifhook.Step("alloc.saved", path.Join(w.dataDir, ident, "status"))
 	w.activeUnits[ident] = worker
 
 	return worker, nil
